@@ -98,3 +98,26 @@ Example C06_lowered :
   | None => []
   end = [(7, 40, false)].
 Proof. vm_compute. reflexivity. Qed.
+
+(* ---- tie to the source: the function bodies below are re-translated from /repo on every run
+   (harness/cmd/gofunc -> theories/Generated/Funcs.v, interpreted by theories/GoIR.v); the statements say that
+   the translated source computes what the model assumes, for ALL inputs. A change of the source that alters
+   the computed function breaks the proof. ---- *)
+From Cache Require Import GoIR TieTTL.
+From Cache.Generated Require Import Funcs.
+
+(* WithTTL: with updateExisting on a context that carries a TTL cell the cell becomes upd_cell old ttl (the minimal
+   non-zero value) and the same context is returned; otherwise a new context with a cell of its own is created
+   and the caller's cell keeps its content *)
+Theorem C06_source_with_ttl : forall cell ttl upd,
+  run_with_ttl cell ttl upd =
+  Some (match cell with
+        | Some old => if upd then (Some (upd_cell old ttl), None) else (Some old, Some ttl)
+        | None => (None, Some ttl)
+        end).
+Proof. exact tie_with_ttl. Qed.
+Print Assumptions C06_source_with_ttl.
+
+Theorem C06_source_ttl : forall cell, run_ttl cell = Some (cell_ttl cell).
+Proof. exact tie_ttl. Qed.
+Print Assumptions C06_source_ttl.
